@@ -1,6 +1,6 @@
 #!/bin/sh
 # every deviation config in spec/mc (the design as found before a fix:, or a named wrong variant) must be REFUTED by TLC
-cd /verif
+cd "$(dirname "$0")/.." && V=$(pwd)   # (a snapshot of /verif runs its own copy)
 rc=0
 for pair in MC_Selection:MC_Selection_asfound MC_DataStream:MC_DataStream_unchecked MC_CleanWrite:MC_CleanWrite_asfound \
   MC_PelDir:MC_PelDir_noouterbreak MC_PelDir:MC_PelDir_noinnerbreak MC_PrettyPrint:MC_PrettyPrint_asfound \
